@@ -396,7 +396,7 @@ def compare(t0, t1, upd):
                 return parent + (j - 1,) + q[len(parent) + 1:]
         return q
 
-    grows = kind in ("create", "append", "mapappend", "padassign")   # P is a collection that receives new children: every old node stays
+    grows = kind in ("create", "append", "appendone", "mapappend", "padassign")   # P is a collection that receives new children: every old node stays
     expected = {}
     for q, e in t0.items():
         if is_under(P, q) and not grows:
@@ -462,7 +462,7 @@ def compare_comments(o0, o1, t0, t1, upd):
                 return parent + (j - 1,) + q[len(parent) + 1:]
         return q
     # collections have no position of their own (yaml.v3 gives them the position of their first child)
-    grows = kind in ("create", "append", "mapappend", "padassign")
+    grows = kind in ("create", "append", "appendone", "mapappend", "padassign")
     frame0 = [(e["pos"], q) for q, e in t0.items() if (grows or not is_under(P, q)) and q != ("$doc",) and e["a"][0] in ("scalar", "alias")]
     frame1 = [(t1[mapq(q)]["pos"], q) for _, q in frame0 if mapq(q) in t1]
     c0, c1 = comment_positions(o0), comment_positions(o1)
@@ -620,7 +620,7 @@ def make_updates(rng, table, root):
     ups = []
     if not ts:
         return ups
-    for kind in ("assign", "relassign", "delete", "deletefirst", "append", "padassign", "twostep", "mapappend", "create", "subtree"):
+    for kind in ("assign", "relassign", "delete", "deletefirst", "append", "appendone", "padassign", "twostep", "mapappend", "create", "subtree"):
         P = rng.choice(ts)
         e = table[P]
         k = e["a"][0]
@@ -641,6 +641,14 @@ def make_updates(rng, table, root):
             firsts = [p for p in ts if len(p) == 1 and (p[0] == 0 or (isinstance(table[()]["shape"], tuple) and table[()]["shape"] and p[0] == table[()]["shape"][0]))]
             if firsts:
                 ups.append({"kind": "delete", "path": firsts[0], "expr": "del(%s)" % expr_of(firsts[0])})
+        elif kind == "appendone":
+            # += of ONE value (not a list) on a sequence, preferring sequences whose items differ in style
+            seqs = [p for p in ts if table[p]["a"][0] == "seq" and table[p]["shape"] > 0]
+            mixed = [p for p in seqs if len({table[p + (i,)]["a"][1] for i in range(table[p]["shape"]) if p + (i,) in table}) > 1]
+            if seqs:
+                P = rng.choice(mixed) if mixed and rng.random() < 0.8 else rng.choice(seqs)
+                v = rng.choice(['"443:443"', '{"n": 1}', "5", '"plain"', "true", '{"a": {"b": 1}}', "[[1]]"])
+                ups.append({"kind": "appendone", "path": P, "expr": "%s += %s" % (expr_of(P), v)})
         elif kind == "padassign":
             # assignment beyond the end of a non-empty sequence (flow ones first): nulls are padded in
             seqs = [p for p in ts if table[p]["a"][0] == "seq" and table[p]["shape"] > 0]
@@ -688,7 +696,62 @@ def make_updates(rng, table, root):
     return ups
 
 
+def other_device_tmp():
+    """A writable directory on another file system than the work dir (so that -i cannot rename its temp file), or None."""
+    try:
+        here = os.stat(vlib.WORK).st_dev
+    except OSError:
+        return None
+    for cand in ("/dev/shm", "/tmp", "/run/shm", "/var/tmp"):
+        try:
+            if os.path.isdir(cand) and os.access(cand, os.W_OK) and os.stat(cand).st_dev != here:
+                return cand
+        except OSError:
+            pass
+    return None
+
+
+def inplace_one(doc, expr, tmpdir):
+    import shutil, subprocess, tempfile
+    d = tempfile.mkdtemp(prefix="c07i_", dir=vlib.WORK)
+    try:
+        f = os.path.join(d, "f.yml")
+        with open(f, "w") as fh:
+            fh.write(doc)
+        want = subprocess.run([vlib.YQ, expr, f], stdout=subprocess.PIPE, stderr=subprocess.PIPE, timeout=20)
+        env = dict(os.environ, TMPDIR=tmpdir) if tmpdir else dict(os.environ)
+        got = subprocess.run([vlib.YQ, "-i", expr, f], stdout=subprocess.PIPE, stderr=subprocess.PIPE, timeout=20, env=env)
+        if want.returncode != 0 or got.returncode != 0:
+            return None
+        content = open(f, "rb").read()
+        return content == want.stdout, want.stdout.decode("utf-8", "replace"), content.decode("utf-8", "replace")
+    finally:
+        shutil.rmtree(d, ignore_errors=True)
+
+
+def inplace_cases(chk, pairs):
+    tmpdir = other_device_tmp()
+    stat = {"other_device_tmpdir": tmpdir, "cases": 0, "skipped": 0}
+    shown = 0
+    for doc, u in pairs:
+        for td in ([tmpdir, None] if tmpdir else [None]):
+            r = inplace_one(doc, u["expr"], td)
+            if r is None:
+                stat["skipped"] += 1
+                continue
+            stat["cases"] += 1
+            chk.count(("c07-inplace", doc, u["expr"], td), nontrivial=True)
+            if not r[0] and shown < 2:
+                shown += 1
+                chk.violation({"kind": "c07-inplace", "doc": doc, "expr": u["expr"], "tmpdir": td, "expected_file": r[1], "file_after_-i": r[2]}, True,
+                              "`yq -i '%s'` (TMPDIR=%s) leaves a file that differs from what `yq '%s'` prints" % (u["expr"], td, u["expr"]))
+    return stat
+
+
 def replay(rp):
+    if rp.get("kind") == "c07-inplace":
+        r = inplace_one(rp["doc"], rp["expr"], rp.get("tmpdir"))
+        return r is None or r[0]
     if rp.get("kind") != "c07":
         return False
     r = run_pair(rp["doc"], [rp["upd"]])
@@ -835,7 +898,7 @@ def run(chk):
             else:
                 viol.append((d, u, o, diffs, sig))
         # correspondence with the model for the update kinds it covers
-        if len(docs0) == 1 and len(pr["docs"]) == 1 and not u.get("rel") and not u.get("subtree") and not u.get("selected") and u["kind"] not in ("mapappend", "padassign") \
+        if len(docs0) == 1 and len(pr["docs"]) == 1 and not u.get("rel") and not u.get("subtree") and not u.get("selected") and u["kind"] not in ("mapappend", "padassign", "appendone") \
                 and docs0[0].get("content") and pr["docs"][0].get("content"):
             root0 = docs0[0]["content"][0]
             cp = content_path(root0, u["path"])
@@ -893,6 +956,11 @@ def run(chk):
         classes.setdefault(k, {"count": 0, "example": {"doc": d, "expr": u["expr"], "out": o, "diff": repr(diffs[0])[:300]}})
         classes[k]["count"] += 1
     chk.extra["unexplained_difference_classes"] = classes
+    # ---- the same updates written back with -i through the copy fallback (temp dir on another file system):
+    # the file must hold exactly what the update prints, nothing of the old content after it
+    inplace = inplace_cases(chk, [(d, u) for (d, u, _), o in zip(cases, outs) if o is not None and u["kind"] == "delete"][:40 if not thorough else 400])
+    chk.extra["inplace_cross_device"] = inplace
+
     seen_sig = set()
     for d, u, o, diffs, sig in viol:
         s = (sig, diffs[0][0])
